@@ -316,7 +316,43 @@ impl Property for SolveProp {
             }
             let mut br = b.brancher(&case.cfg.brancher);
             let mut t = CountingTermination::budget(BUDGET);
-            match satisfy(&mut b, &mut br, &mut t) {
+            // Everything the solver derives without a decision, and every nogood it uses as a reason, is implied
+            // by the model and therefore holds under the planted assignment. The explanation tap (hook H1) makes
+            // both visible: an unsound learned nogood is caught when it is used, long before it turns a verdict.
+            pumpkin_solver::verif_hooks::enable(200_000);
+            let result = satisfy(&mut b, &mut br, &mut t);
+            let (records, _) = pumpkin_solver::verif_hooks::drain();
+            pumpkin_solver::verif_hooks::disable();
+            let holds = |p: &pumpkin_solver::predicates::Predicate| b.unpred(*p).map(|q| q.holds(w[q.var] as i64));
+            let mut checked = 0u64;
+            for r in &records {
+                let Some(p) = r.propagated.as_ref() else { continue };
+                let Some(p_holds) = holds(p) else { continue };
+                match r.kind {
+                    pumpkin_solver::verif_hooks::Kind::Propagation if r.decision_level == 0 => {
+                        checked += 1;
+                        if !p_holds {
+                            return Err(Failure::new(
+                                format!("wrong:root-fact-excludes-planted-solution:{}", r.propagator),
+                                format!("{} derived {:?} at the root level but the planted solution of the long-chain model violates it", r.propagator, b.unpred(*p)),
+                            ));
+                        }
+                    }
+                    pumpkin_solver::verif_hooks::Kind::AnalysisReason if r.propagator == "NogoodPropagator" => {
+                        checked += 1;
+                        let reason_holds = r.reason.iter().all(|q| holds(q).unwrap_or(true));
+                        if reason_holds && !p_holds && r.reason.iter().all(|q| holds(q).is_some()) {
+                            return Err(Failure::new(
+                                "wrong:nogood-violated-by-planted-solution",
+                                format!("a nogood used as the reason {:?} -> {:?} is violated by the planted solution of the long-chain model (every nogood in the database is implied by the model)", r.reason.iter().map(|q| b.unpred(*q)).collect::<Vec<_>>(), b.unpred(*p)),
+                            ));
+                        }
+                    }
+                    _ => {}
+                }
+            }
+            out.sub_evals = checked;
+            match result {
                 SatRes::Sat(a) => {
                     if let Some(why) = sem::first_violation(m, &a) {
                         return Err(Failure::new("invalid:solution-from-satisfy", format!("the solution of the long-chain model is not a solution: {}", why)));
